@@ -387,8 +387,8 @@ impl ObjState for [Link] {
         validate_slice_real_shift(&mut errors, &self[1..], "Link", 0);
         early_err!(errors, "Links");
 
-        // Every link reference must point inside the network
-        for link in self.iter().skip(1) {
+        // Every link reference must point inside the network (the dummy entry may carry lockouts too)
+        for link in self.iter() {
             for (link_idx_ref, name) in [
                 (link.idx_flip, "flip"),
                 (link.idx_next, "next"),
